@@ -9,7 +9,7 @@
    continuous state space -- proved as the density identity for every pair of states and as pi K = pi on every
    finite state space. *)
 From CV Require Import Base.Tac Base.Cmp Base.Ext Model.C02_MH
-  Model.C02_Tune Proofs.C02_MH Proofs.C02_Balance Proofs.C02_Vec Proofs.C02_Real Proofs.C02_Witness Proofs.C02_Tune.
+  Model.C02_Tune Proofs.C02_MH Proofs.C02_Balance Proofs.C02_Vec Proofs.C02_Real Proofs.C02_Witness Proofs.C02_Tune Proofs.C02_Bilinear.
 From Coq Require Import QArith Qreals Reals.
 
 (* ---- the log-domain decision is the MH decision ------------------------------------------------------- *)
@@ -121,6 +121,16 @@ Proof.
   split; [exact (pcn_energy_symmetric V B lin Hs Hl a s x x' H1 H2) | exact (pcn_ratio_is_MH V B lin Hs Hl a s x x' l l' H1 H2)].
 Qed.
 Print Assumptions C02_pcn_prior_reversible.
+
+(* a concrete instance of the abstract form, in every dimension n: any dense symmetric precision matrix P
+   (B(u,v) = sum_ij P_ij u_i v_j); both the zero-mean and the centred statement *)
+Theorem C02_pcn_dense_precision : forall (P : nat -> nat -> Q) (n : nat), (forall i j, P i j == P j i)%Q ->
+  forall (m : nat -> Q) (a s : Q) (x x' : nat -> Q) (l l' : Q), (a * a + s * s == 1)%Q -> ~ (s == 0)%Q ->
+  ((l' + log_prior _ (BM P n) x' + log_q _ (BM P n) linF a s x' x) - (l + log_prior _ (BM P n) x + log_q _ (BM P n) linF a s x x') == l' - l)%Q /\
+  ((l' + log_prior_m _ (BM P n) linF m x' + log_q_centred _ (BM P n) linF m a s x' x)
+   - (l + log_prior_m _ (BM P n) linF m x + log_q_centred _ (BM P n) linF m a s x x') == l' - l)%Q.
+Proof. exact pcn_dense_precision. Qed.
+Print Assumptions C02_pcn_dense_precision.
 
 (* the repaired, centred proposal m + a(x-m) + s(xi-m) has the same property for EVERY prior mean m, and coincides
    with the code's proposal when m = 0 *)
